@@ -230,6 +230,38 @@ def c02_streams(ctx):
 
 
 # ------------------------------------------------------------------------------------------------
+# C03
+
+def c03_streams(ctx):
+    rng = ctx.rng
+    n = 1 if ctx.quick else 5
+    for cc in countries(ctx):
+        for _ in range(n):
+            v = valid_iban(ctx, cc)
+            yield from both("iban_new", "spec_iban_accept", [enc(v), "0", "0"], "valid", True)
+            positions = range(2, len(v))
+            for p in positions:
+                pool = DIGITS if v[p] in DIGITS else UPPER
+                others = [c for c in pool if c != v[p]]
+                if ctx.quick:
+                    others = rng.sample(others, 2)
+                for ch in others:
+                    yield from both("iban_new", "spec_iban_accept", [enc(v[:p] + ch + v[p + 1:]), "0", "0"],
+                                    "substitution", True)
+            for p in range(len(v) - 1):
+                a, b_ = v[p], v[p + 1]
+                if a != b_ and ((a in DIGITS) == (b_ in DIGITS)):
+                    tag = "transposition-seam" if p == 3 else "transposition"
+                    yield from both("iban_new", "spec_iban_accept", [enc(v[:p] + b_ + a + v[p + 2:]), "0", "0"], tag, True)
+    # country-code transpositions where both orders are countries (e.g. BG/GB)
+    ccs = set(countries(ctx))
+    for cc in sorted(ccs):
+        if cc[::-1] in ccs and cc[0] != cc[1]:
+            v = valid_iban(ctx, cc)
+            yield from both("iban_new", "spec_iban_accept", [enc(v[1] + v[0] + v[2:]), "0", "0"], "transposition-cc", True)
+
+
+# ------------------------------------------------------------------------------------------------
 # known findings
 
 def match_known(v: dict, known: list):
@@ -260,6 +292,13 @@ PREDICATES = {}
 
 
 REGISTRY = {
+    "C03": {
+        "streams": c03_streams,
+        "rule": "per country: valid IBANs; every position >= 2 x same-kind replacement characters (all in thorough, 2 per "
+                "position in quick); every adjacent same-kind transposition incl. the check-digit/BBAN seam and reversible "
+                "country codes; each mutated text must be rejected by IBAN(text) (spec oracle: extracted iso_ok) and the "
+                "model must agree with the implementation on the outcome class",
+    },
     "C01": {
         "streams": c01_streams,
         "rule": "per country: valid IBANs built from the structure string; whitespace/case variants; single-position "
